@@ -51,6 +51,9 @@ type User implements Node & Named {
   class: Int
   copy: String
   _hidden: ID
+  modelExtra: String
+  modelFieldsSet: Int
+  Json: String
 }
 type Admin implements Node { id: ID! level: Int! perms: [String!]! }
 type Bot implements Node & Named { id: ID! name: String version: String! }
@@ -132,7 +135,7 @@ SUB = {
     "U": [("... on User { id }", ("inner_inline",), ()), ("__typename", ("explicit_typename",), ())],
 }
 LEAVES = {
-    "User": ["id", "name", "kind", "score", "blob", "active", "firstName", "HTTPCode", "class", "copy", "_hidden"],
+    "User": ["id", "name", "kind", "score", "blob", "active", "firstName", "HTTPCode", "class", "copy", "_hidden", "modelExtra", "modelFieldsSet", "Json"],
     "Admin": ["id", "level", "perms"],
     "Bot": ["id", "name", "version"],
     "Named": ["id", "name"],
@@ -269,8 +272,9 @@ type Robot implements Entity & Actor { id: ID! displayName: String! model: Strin
 type Team implements Entity { id: ID! title: String! lead: Actor members: [Member!]! parent: Team tags: [String]! }
 union Member = Person | Robot
 union Thing = Person | Robot | Team
+union Solo = Robot
 type Page { items: [Thing]! next: Page total: Int! }
-type RootQuery { me: Person! actor(id: ID!): Actor entity(id: ID!): Entity team(id: ID!): Team things(first: Int = 10): Page! members: [[Member!]!] }
+type RootQuery { me: Person! actor(id: ID!): Actor entity(id: ID!): Entity team(id: ID!): Team things(first: Int = 10): Page! members: [[Member!]!] solo: Solo! solos: [Solo!]! soloOpt: Solo }
 type RootMutation { rename(id: ID!, to: String!): Actor! disband(id: ID!): Team }
 """
 K2_OPS = [
@@ -291,6 +295,9 @@ K2_OPS = [
     'query K2FragOnUnionMember { team(id: "t") { members { ...RobotBits ... on Person { id } } } }\nfragment RobotBits on Robot { model owner { id } }',
     'mutation K2Rename($id: ID!, $to: String!) { rename(id: $id, to: $to) { id displayName ... on Person { status } } }',
     'mutation K2Disband($id: ID!) { disband(id: $id) { id members { __typename } } }',
+    'query K2Solo { solo { ... on Robot { model } } solos { ... on Robot { id } } soloOpt { __typename } }',
+    'query K2SoloTypenameOnly { solo { __typename } solos { __typename } }',
+    'query K2AliasedTypenameOnObject { me { kind: __typename id team { tn: __typename title } } }',
     'query K2EnumEverywhere { me { status reports { ... on Person { status history } } } }',
 ]
 
